@@ -113,6 +113,294 @@ def stack_operand_rule(ctx, R, L, sem):
                     R.ok(inst, sample='%s %s: addresses relative to the right value of esp' % (name, form))
 
 
+class DoubleWrite(Exception):
+    pass
+
+
+def lifted_effect(I, f, args, val, opmode='u32'):
+    """Evaluate the assignments a semantic function returns for the operand terms `args` in the state `val` (names -> integers):
+    the state after the instruction, all sources read in the pre-state.  Raises Refuse outside the evaluable subset."""
+    from ..lifter import InfoObj
+    res = I.run(f, [InfoObj(opmode, 'u32')] + list(args))
+    outs = []
+    for dec, tmpl in res:
+        if isinstance(tmpl, LiftError) or not isinstance(tmpl, list):
+            raise Refuse('lifting raises %s' % getattr(tmpl, 'exc', tmpl))
+        got = dict(val)
+        written = set()
+        for a in tmpl:
+            if a.kind != 'Aff':
+                continue
+            v, w = eval_small(a.src, val)
+            d = a.dst
+            base = d.name if d.kind == 'Id' else (d.arg.name if d.kind == 'Slice' and d.arg.kind == 'Id' else None)
+            if base is not None:
+                if base in written:
+                    # eval_instr turns a write to a part of a register into a write of the whole register (built from the pre-state):
+                    # of two assignments to one register only one survives
+                    raise DoubleWrite(base)
+                written.add(base)
+            if d.kind == 'Id':
+                got[d.name] = v & ((1 << get_size_(d)) - 1)
+            elif d.kind == 'Slice' and d.arg.kind == 'Id':
+                msk = ((1 << (d.stop - d.start)) - 1) << d.start
+                got[d.arg.name] = (got[d.arg.name] & ~msk) | ((v << d.start) & msk)
+            else:
+                raise Refuse('destination %s' % show(d))
+        outs.append(got)
+    return outs
+
+
+def count_zero_rule(ctx, R, L, sem):
+    """Shifts and rotates whose count, masked to 5 bits, is 0 change neither the operand nor any flag."""
+    from ..lifter import TId, TSlice, TInt, ModVal
+    I = L.I
+    ebx, ecx = TId('ebx', 32, is_reg=True), TId('ecx', 32, is_reg=True)
+    cl = TSlice(ecx, 0, 8)
+    for name in ('rol', 'ror', 'rcl', 'rcr', 'shl', 'sal', 'shr', 'sar', 'shld', 'shrd'):
+        f = L.mnemo_func.get(name)
+        if f is None:
+            raise AnalysisError('ia32_sem.mnemo_func has no %r' % name)
+        for width, dst in ((32, ebx), (16, TSlice(ebx, 0, 16)), (8, TSlice(ebx, 0, 8))):
+            if name in ('shld', 'shrd') and width == 8:
+                continue
+            for cnt in (0, 32, 0x40, 0xE0):
+                for flags in ((0, 0, 0, 0, 0, 0), (1, 1, 1, 1, 1, 1), (1, 0, 1, 0, 1, 0)):
+                    val = dict(zip(('cf', 'pf', 'af', 'zf', 'nf', 'of'), flags))
+                    val.update({'ebx': 0x80000181, 'ecx': cnt, 'edx': 0x7fff0001})
+                    args = [dst, cl] if name not in ('shld', 'shrd') else [dst, (TId('edx', 32, is_reg=True) if width == 32 else TSlice(TId('edx', 32, is_reg=True), 0, 16)), cl]
+                    inst = 'count0:%s:%d:cl=%#x:%s' % (name, width, cnt, ''.join(str(x) for x in flags))
+                    try:
+                        outs = lifted_effect(I, f, args, val)
+                    except LiftUnknown as e:
+                        raise AnalysisError('%s is outside the modelled subset: %s' % (name, e))
+                    except Refuse as e:
+                        raise AnalysisError('%s: lifted assignments outside the evaluable subset: %s' % (name, e))
+                    changed = sorted(k for got in outs for k in got if got[k] != val[k])
+                    if changed:
+                        R.violation(inst, 'count0:%s:%s' % (name, ','.join(changed)), '%s of a %d-bit operand by cl = %#x (masked count 0) changes %s; IA-32 leaves the operand and every flag unchanged'
+                                    % (name, width, cnt, ', '.join(changed)), where(sem, f.node), count=False, witness='c1 e0 00 (shl eax, 0) with zf = 1')
+                    else:
+                        R.ok(inst, nontrivial=(len(R.nontrivial) < 200), sample='%s %d-bit by cl = %#x: nothing changes' % (name, width, cnt))
+
+
+def same_register_parts_rule(ctx, R, L, sem):
+    """Two-operand instructions that write both operands (xchg, xadd) on two parts of one register (al, ah)."""
+    from ..lifter import TId, TSlice
+    I = L.I
+    eax = TId('eax', 32, is_reg=True)
+    al, ah = TSlice(eax, 0, 8), TSlice(eax, 8, 16)
+    EAX0 = 0x1970B2F4
+
+    def ref(name, a_is_al):
+        lo, hi = EAX0 & 0xff, (EAX0 >> 8) & 0xff
+        a, b = (lo, hi) if a_is_al else (hi, lo)
+        if name == 'xchg':
+            a, b = b, a
+        else:
+            a, b = (a + b) & 0xff, a
+        lo, hi = (a, b) if a_is_al else (b, a)
+        return (EAX0 & 0xffff0000) | (hi << 8) | lo
+    for name in ('xchg', 'xadd'):
+        f = L.mnemo_func.get(name)
+        if f is None:
+            raise AnalysisError('ia32_sem.mnemo_func has no %r' % name)
+        for a_is_al in (True, False):
+            args = [al, ah] if a_is_al else [ah, al]
+            inst = 'parts:%s %s' % (name, 'al, ah' if a_is_al else 'ah, al')
+            val = {'eax': EAX0, 'cf': 0, 'pf': 0, 'af': 0, 'zf': 0, 'nf': 0, 'of': 0}
+            try:
+                outs = lifted_effect(I, f, args, val)
+            except DoubleWrite as e:
+                R.violation(inst, 'parts:%s' % name, '%s assigns the register %s twice in one instruction: the evaluator rewrites a write to a part of a register into a write of the whole '
+                            'register, so one of the two is lost' % (inst[6:], e), where(sem, f.node), witness='86 e0 (xchg al, ah) gives al = ah = old ah')
+                continue
+            except LiftUnknown as e:
+                raise AnalysisError('%s is outside the modelled subset: %s' % (name, e))
+            except Refuse as e:
+                raise AnalysisError('%s: lifted assignments outside the evaluable subset: %s' % (name, e))
+            want = ref(name, a_is_al)
+            bad = [got['eax'] for got in outs if got['eax'] != want]
+            if bad:
+                R.violation(inst, 'parts:%s' % name, '%s with eax = %#x gives eax = %#x; IA-32: %#x (both parts of the register are written; as two assignments one is lost)'
+                            % (inst[6:], EAX0, bad[0], want), where(sem, f.node), witness='86 e0 (xchg al, ah)')
+            else:
+                R.ok(inst, sample='%s: eax %#x -> %#x' % (inst[6:], EAX0, want))
+
+
+def shift_ref(name, w, a, b2, n, cf):
+    """IA-32 reference (SDM pseudo-code; validated at authoring time against the host CPU on 23 000 vectors, DESIGN 12.9).
+    (result, cf, of|None) of IA-32 shift/rotate `name` on w-bit operand a (b2 = second operand of shld/shrd), count n (already masked to 5 bits, n > 0)."""
+    m=(1<<w)-1; a&=m; msb=lambda v:(v>>(w-1))&1
+    of=None
+    if name in ('shl','sal'):
+        if n>w: return 0, None, None
+        r=(a<<n)&m; c=(a>>(w-n))&1 if n<=w else None
+        if n==1: of=msb(r)^c
+        return r,c,of
+    if name=='shr':
+        if n>w: return 0, None, None
+        r=a>>n; c=(a>>(n-1))&1
+        if n==1: of=msb(a)
+        return r,c,of
+    if name=='sar':
+        s=a-(1<<w) if msb(a) else a
+        r=(s>>min(n,w))&m; c=(s>>(min(n,w)-1))&1 if n<=w else msb(a)
+        if n==1: of=0
+        return r,c,of
+    if name=='shld':
+        if n>w: return None,None,None
+        r=((a<<n)|((b2&m)>>(w-n)))&m; c=(a>>(w-n))&1
+        if n==1: of=msb(r)^msb(a)
+        return r,c,of
+    if name=='shrd':
+        if n>w: return None,None,None
+        r=((a>>n)|((b2&m)<<(w-n)))&m; c=(a>>(n-1))&1
+        if n==1: of=msb(r)^msb(a)
+        return r,c,of
+    if name=='rol':
+        k=n%w; r=((a<<k)|(a>>(w-k)))&m if k else a; c=r&1
+        if n==1: of=msb(r)^c
+        return r,c,of
+    if name=='ror':
+        k=n%w; r=((a>>k)|(a<<(w-k)))&m if k else a; c=msb(r)
+        if n==1: of=msb(r)^((r>>(w-2))&1)
+        return r,c,of
+    if name in ('rcl','rcr'):
+        k=n%(w+1); big=(cf<<w)|a; full=(1<<(w+1))-1
+        if name=='rcl': rot=((big<<k)|(big>>(w+1-k)))&full
+        else: rot=((big>>k)|(big<<(w+1-k)))&full
+        r=rot&m; c=rot>>w
+        if k==0: c=cf
+        if n==1: of=(msb(r)^c) if name=='rcl' else (msb(r)^((r>>(w-2))&1))
+        return r,c,of
+
+
+def shift_value_rule(ctx, R, L, sem):
+    """Result, CF, OF (count 1) and ZF/SF/PF of the shifts and rotates: the lifted assignments are evaluated on boundary operands x counts
+    and compared with shift_ref."""
+    from ..lifter import TId, TSlice, TInt, ModVal
+    I = L.I
+    ebx, edx = TId('ebx', 32, is_reg=True), TId('edx', 32, is_reg=True)
+    vals = [0, 1, 0x80, 0x81, 0xff, 0x8000, 0x8001, 0xffff, 0x80000000, 0x80000001, 0xffffffff, 0x12345678, 0x7fffffff]
+    par = lambda v: 1 - bin(v & 0xff).count('1') % 2
+    for name in ('rol', 'ror', 'rcl', 'rcr', 'shl', 'shr', 'sar', 'shld', 'shrd'):
+        f = L.mnemo_func.get(name)
+        if f is None:
+            raise AnalysisError('ia32_sem.mnemo_func has no %r' % name)
+        for w in (32, 16, 8):
+            if name in ('shld', 'shrd') and w == 8:
+                continue
+            dst = ebx if w == 32 else TSlice(ebx, 0, w)
+            src2 = edx if w == 32 else TSlice(edx, 0, w)
+            m = (1 << w) - 1
+            bad = None
+            n_vec = 0
+            for cnt in (1, 2, 7, 8, 9, 15, 16, 17, 24, 31):
+                if name in ('shld', 'shrd') and cnt > min(w, 31):
+                    continue
+                # the decoder hands the immediate count over as an 8-bit constant
+                cterm = TInt(ModVal(8, cnt))
+                for a in vals:
+                    for cf in (0, 1):
+                        val = {'ebx': a, 'edx': 0x80000001, 'ecx': 0, 'cf': cf, 'pf': 0, 'af': 0, 'zf': 0, 'nf': 0, 'of': 0}
+                        args = [dst, cterm] if name not in ('shld', 'shrd') else [dst, src2, cterm]
+                        try:
+                            outs = lifted_effect(I, f, args, val, 'u32' if w != 16 else 'u16')
+                        except LiftUnknown as e:
+                            raise AnalysisError('%s is outside the modelled subset: %s' % (name, e))
+                        except Refuse as e:
+                            raise AnalysisError('%s: lifted assignments outside the evaluable subset: %s' % (name, e))
+                        r, c, of_ = shift_ref(name, w, a, 0x80000001, cnt, cf)
+                        if r is None:
+                            continue
+                        n_vec += 1
+                        for got in outs:
+                            res = got['ebx'] & m
+                            prob = None
+                            if res != r:
+                                prob = 'result %#x, IA-32 %#x' % (res, r)
+                            elif c is not None and got['cf'] != c:
+                                prob = 'CF %d, IA-32 %d' % (got['cf'], c)
+                            elif of_ is not None and got['of'] != of_:
+                                prob = 'OF %d, IA-32 %d' % (got['of'], of_)
+                            elif name in ('shl', 'shr', 'sar', 'shld', 'shrd') and (got['zf'], got['nf'], got['pf']) != (int(r == 0), r >> (w - 1), par(r)):
+                                prob = 'ZF/SF/PF %s, IA-32 %s' % ((got['zf'], got['nf'], got['pf']), (int(r == 0), r >> (w - 1), par(r)))
+                            if prob and bad is None:
+                                bad = (cnt, a, cf, prob)
+            inst = 'shift-value:%s:%d' % (name, w)
+            if bad:
+                cnt, a, cf, prob = bad
+                R.violation(inst, 'shift-value:%s:%d:%s' % (name, w, prob.split()[0]), '%s of the %d-bit operand %#x by %d (CF = %d): %s' % (name, w, a, cnt, cf, prob), where(sem, f.node),
+                            witness='%s on %#x by %d' % (name, a, cnt))
+            else:
+                R.ok(inst, sample='%s %d-bit: %d vectors agree with the IA-32 definition' % (name, w, n_vec))
+
+
+def bittest_address_rule(ctx, R, L, sem):
+    """bt/bts/btr/btc with a memory operand: a register bit offset is signed and also selects the (d)word (address + size/8 * floor(offset / size));
+    an immediate offset is taken modulo the operand size and never leaves the operand.  The lifted carry flag is evaluated: the cell it reads
+    and the bit it takes."""
+    from ..lifter import TMem, TId, TSlice, TInt, ModVal, walk_terms
+    I = L.I
+    esi, ecx = TId('esi', 32, is_reg=True), TId('ecx', 32, is_reg=True)
+    BASE = 0x40000
+    for name in ('bt', 'bts', 'btr', 'btc'):
+        f = L.mnemo_func.get(name)
+        if f is None:
+            raise AnalysisError('ia32_sem.mnemo_func has no %r' % name)
+        for width in (32, 16):
+            mem = TMem(esi, width)
+            for kind in ('reg', 'imm'):
+                offs = [0, 1, width - 1, width, width + 1, 3 * width + 5, -1, -width, -width - 1, -2 * width - 7] if kind == 'reg' else [0, 1, width - 1, width, width + 1, 0xff]
+                bad = None
+                for off in offs:
+                    if kind == 'reg':
+                        b = ecx if width == 32 else TSlice(ecx, 0, 16)
+                        val = {'esi': BASE, 'ecx': off & 0xffffffff if width == 32 else (0x7fff0000 | (off & 0xffff))}
+                    else:
+                        # the decoder hands the imm8 over in the operand size
+                        b = TInt(ModVal(width, off))
+                        val = {'esi': BASE, 'ecx': 0}
+                    val.update({'cf': 0, 'pf': 0, 'af': 0, 'zf': 0, 'nf': 0, 'of': 0})
+                    try:
+                        res = I.run(f, [InfoObj(('u32' if width == 32 else 'u16'), 'u32'), mem, b])
+                    except LiftUnknown as e:
+                        raise AnalysisError('%s is outside the modelled subset: %s' % (name, e))
+                    for dec, tmpl in res:
+                        if isinstance(tmpl, LiftError) or not isinstance(tmpl, list):
+                            bad = bad or (off, 'lifting raises %s' % getattr(tmpl, 'exc', tmpl))
+                            continue
+                        cfs = [a.src for a in tmpl if a.kind == 'Aff' and a.dst.kind == 'Id' and a.dst.name == 'cf']
+                        if not cfs:
+                            bad = bad or (off, 'cf is not assigned')
+                            continue
+                        mems = [t for t in walk_terms(cfs[0]) if t.kind == 'Mem']
+                        shifts = [t for t in walk_terms(cfs[0]) if t.kind == 'Op' and t.op == '>>' and len(t.args) == 2]
+                        if len(mems) != 1:
+                            bad = bad or (off, 'cf reads %d memory cells' % len(mems))
+                            continue
+                        try:
+                            got_addr = eval_small(mems[0].arg, val)[0] & 0xffffffff
+                            got_bit = eval_small(shifts[0].args[1], val)[0] if shifts else 0
+                        except Refuse as e:
+                            raise AnalysisError('%s: bit-test address outside the evaluable subset: %s' % (name, e))
+                        if kind == 'reg':
+                            want_addr = (BASE + (width // 8) * (off // width)) & 0xffffffff
+                        else:
+                            want_addr = BASE
+                        want_bit = off % width
+                        if (got_addr, got_bit) != (want_addr, want_bit) and bad is None:
+                            bad = (off, 'cf is bit %d of the cell at esi%+d; IA-32: bit %d of the cell at esi%+d' % (got_bit, ((got_addr - BASE + 2**31) % 2**32) - 2**31, want_bit, want_addr - BASE))
+                inst = 'bittest:%s:%d:%s' % (name, width, kind)
+                if bad:
+                    R.violation(inst, 'bittest:%s:%d:%s' % (name, width, kind), '%s %s PTR [esi], %s with bit offset %d: %s' % (name, 'DWORD' if width == 32 else 'WORD',
+                                'a register' if kind == 'reg' else 'an immediate', bad[0], bad[1]), where(sem, f.node),
+                                witness='0f a3 06 (bt DWORD PTR [esi], eax) with eax = -33' if kind == 'reg' else '0f ba 2e 21 (bts DWORD PTR [esi], 33) sets bit 1 of [esi], not of [esi+4]')
+                else:
+                    R.ok(inst, sample='%s %d-bit, %s offset: %d offsets address the right cell and bit' % (name, width, kind, len(offs)))
+
+
 def run(ctx, report):
     L = LifterModel(ctx, opmodes=('u32', 'u16'), rich=True)
     I = L.I
@@ -447,6 +735,9 @@ def run(ctx, report):
             if e['Z'] and inst.args and not bad:
                 op0 = inst.args[0]
                 zsrc = [a.src for a in tmpl if a.kind == 'Aff' and a.dst.kind == 'Id' and a.dst.name == 'zf']
+                # a conditional update `zf = k ? new : zf` (shift count 0 keeps the flags): the new value is what is judged
+                if zsrc and zsrc[0].kind == 'Cond' and zsrc[0].src2.kind == 'Id' and zsrc[0].src2.name == 'zf':
+                    zsrc = [zsrc[0].src1]
                 if zsrc and zsrc[0].kind == 'Cond':
                     xz = zsrc[0].cond
                     if e['Z'] == 'res':
@@ -613,6 +904,15 @@ def run(ctx, report):
     # ------------------------------------------------------------------ D9 push / pop through the stack pointer
     R9 = report.rule('C04.D9', 'push/pop with esp as operand or base register use the value of esp IA-32 prescribes (pop: after the increment; push: before the decrement)', floor=7)
     stack_operand_rule(ctx, R9, L, sem)
+    # ------------------------------------------------------------------ D10 / D11
+    R10 = report.rule('C04.D10', 'a shift or rotate whose count, masked to 5 bits, is 0 changes neither the operand nor any flag (lifted assignments evaluated)', floor=200)
+    count_zero_rule(ctx, R10, L, sem)
+    R12 = report.rule('C04.D12', 'shifts and rotates: result, CF, OF (count 1) and ZF/SF/PF of the lifted assignments equal the IA-32 definition on boundary operands x counts', floor=25)
+    shift_value_rule(ctx, R12, L, sem)
+    R13 = report.rule('C04.D13', 'bt/bts/btr/btc on memory: a register bit offset is signed and selects the cell, an immediate offset stays inside the operand (lifted carry evaluated)', floor=16)
+    bittest_address_rule(ctx, R13, L, sem)
+    R11 = report.rule('C04.D11', 'xchg / xadd on two parts of one register (al, ah) write both parts (lifted assignments evaluated)', floor=4)
+    same_register_parts_rule(ctx, R11, L, sem)
     report.analysed['effects_ref_mnemonics'] = len(eff)
 
     # ------------------------------------------------------------------ D4
@@ -670,6 +970,12 @@ def run(ctx, report):
 
 
 MUTANTS = [
+    ('bt-unsigned-offset', 'miasmx/arch/ia32_sem.py', "                          ExprOp('a>>', b, ExprInt_from(a, 3)),", "                          ExprOp('>>', b, ExprInt_from(a, 3)),", 'C04.D13'),
+    ('bt-imm-leaves-operand', 'miasmx/arch/ia32_sem.py', "    if not isinstance(a, ExprMem) or isinstance(b, ExprInt):", "    if not isinstance(a, ExprMem):", 'C04.D13'),
+    ('shl-flags-unconditional', 'miasmx/arch/ia32_sem.py', "    e += unless_count_0(shifter, update_flag_znp(c) +\n                        [ExprAff(of, ExprOp('^', get_op_msb(c), new_cf))])\n", "    e += update_flag_znp(c) + [ExprAff(of, ExprOp('^', get_op_msb(c), new_cf))]\n", 'C04.D10'),
+    ('xchg-two-assignments', 'miasmx/arch/ia32_sem.py', "def xchg(info, a, b):\n    return aff_pair(a, b, b, a)", "def xchg(info, a, b):\n    return [ExprAff(a, b), ExprAff(b, a)]", 'C04.D11'),
+    ('shrd-of-old-sign', 'miasmx/arch/ia32_sem.py', "[ExprAff(of, ExprOp('^', get_op_msb(d),\n                                                     get_op_msb(a)))]", "[ExprAff(of, get_op_msb(a))]", 'C04.D12'),
+    ('ror-cf-lsb', 'miasmx/arch/ia32_sem.py', "    f = [ExprAff(cf, get_op_msb(c))]", "    f = [ExprAff(cf, c[0:1])]", 'C04.D12'),
     ('das-no-borrow', 'miasmx/arch/ia32_sem.py', "        e.append(ExprAff(cf, ExprOp('|', cond2, ExprOp('&', cond1, lt6))))", "        e.append(ExprAff(cf, cond2))", 'C04.D8'),
     ('aaa-adds-6', 'miasmx/arch/ia32_sem.py', "ExprOp(sign, r_ax, ExprInt16(0x106))", "ExprOp(sign, r_ax, ExprInt16(0x6))", 'C04.D8'),
     ('daa-99', 'miasmx/arch/ia32_sem.py', "                               ExprOp('&', hi_is_9, nibble_gt9(r_al, 0))),\n                   cf)", "                               hi_is_9),\n                   cf)", 'C04.D8'),
